@@ -1137,14 +1137,28 @@ theorem docInner_aux {N : Nat} {s : St} (hs : Inv N s) (sp : Nat) (hsp : sp ≤ 
   show ((s.adv (sp + n)).emit _ _).rest.length ≤ s.rest.length
   simp only [emit_rest, adv_rest_length]; omega
 
+theorem docBlank_inv {N : Nat} {s : St} (hs : Inv N s) :
+    Inv N (docBlank s) ∧ (docBlank s).rest.length ≤ s.rest.length := by
+  unfold docBlank
+  cases hr : s.rest with
+  | nil => simp only; exact ⟨hs, by rw [hr]; simp⟩
+  | cons c r =>
+    simp only
+    split
+    · refine ⟨(hs.adv (by rw [hr]; simp)).setStart, ?_⟩
+      show (s.adv 1).rest.length ≤ _
+      simp only [adv_rest_length, hr, List.length_cons]; omega
+    · exact ⟨hs, by rw [hr]; simp⟩
+
 theorem docInner_spec (N : Nat) : Spec N docInner RLe := by
   intro s hs
   unfold docInner
   dsimp only
-  refine docInner_aux hs _ ?_
-  cases s.rest with
-  | nil => simp
-  | cons c r => dsimp only; split <;> simp
+  obtain ⟨h1, h2⟩ := docBlank_inv hs
+  have := docInner_aux h1 0 (Nat.zero_le _)
+  simp only [Nat.zero_add, List.drop_zero] at this
+  obtain ⟨i1, i2⟩ := this
+  exact ⟨i1, Nat.le_trans i2 h2⟩
 
 theorem optModifier_spec (N : Nat) : Spec N optModifier RLe := by
   intro s hs
